@@ -39,6 +39,26 @@ Fixpoint read_bytes (s : ipc_state) (sock : list bytes) {struct sock} : read_res
       end
   end.
 
+(* The same loop when the peer has NOT closed after its last write (a stalled client): once the bytes
+   written so far are consumed, recv blocks. *)
+Inductive open_result :=
+| OStructError
+| OFrame (data : bytes) (s : ipc_state) (rest : list bytes)
+| OWaiting (s : ipc_state).                                   (* blocked in recv *)
+
+Fixpoint read_bytes_open (s : ipc_state) (sock : list bytes) {struct sock} : open_result :=
+  match frame_from_buffer (buffer s) (msize s) with
+  | StructError => OStructError
+  | Ret (Some b) buf ms => OFrame b (mk_ipc buf ms) sock
+  | Ret None buf ms =>
+      match sock with
+      | [] => OWaiting (mk_ipc buf ms)
+      | more :: sock' =>
+          if is_empty more then read_bytes_open (mk_ipc buf ms) sock'    (* cannot happen after feed *)
+          else read_bytes_open (mk_ipc (buf ++ more) ms) sock'
+      end
+  end.
+
 (* What the peer's successive writes look like to recv on a stream socket: a zero-length write
    produces no read event. *)
 Definition feed (chunks : list bytes) : list bytes := filter (fun c => negb (is_empty c)) chunks.
